@@ -284,6 +284,49 @@ def job(cfgs):
     return n, ocs, res, states
 
 
+def model_class_stage(rep):
+    """Which optional blocks a model HAS is documented by serial-number tag and rated power (mc/data/model_tags.json, pinned):
+    on an inverter that serves every block, a model with the MPPT / extended-meter / second-battery hardware reports those
+    blocks, a single-phase model reports no L2 / L3 values, a two-string model no pv3 / pv4 - for every pinned tag and the
+    rated powers around the documented thresholds.  (A tag the library newly knows is not judged; a pinned tag must keep
+    its class.)"""
+    import json
+    import os
+    pin = json.load(open(os.path.join(os.path.dirname(os.path.dirname(__file__)), 'data', 'model_tags.json')))
+    n = 0
+
+    def has(tag, lst):
+        s = serial_for(tag).decode()
+        return any(t in s for t in pin[lst])
+    mppt_ids = block_ids('ET', 'all_sensors_mppt')
+    bat2_ids = block_ids('ET', 'all_sensors_battery2')
+    for tag in pin['et_tags']:
+        for power in (3000, 14999, 15000, 24999, 25000):
+            cfg = dict(family='ET', tag=tag, power=power, refused=(), battery_mode=2)
+            r = make_rig(cfg)
+            if r.call(r.inv.read_device_info)[0] != 'ok':
+                continue
+            r.call(r.inv.read_runtime_data)
+            res = r.call(r.inv.read_runtime_data)
+            n += 1
+            if res[0] != 'ok':
+                continue
+            keys = set(res[1])
+            ext = has(tag, 'platform_745') or power >= 15000
+            checks = [('mppt-block', ext, mppt_ids[0] in keys and mppt_ids[-3] in keys),
+                      ('extended-meter-block', ext, 'meter_voltage1' in keys if 'meter_voltage1' in {s.id_ for s in ET_TABLES['all_sensors_meter']} else ext),
+                      ('second-battery-block', has(tag, 'bat2') or power >= 25000, bat2_ids[0] in keys and bat2_ids[-1] in keys),
+                      ('pv3-pv4-values', has(tag, 'mppt4') or power >= 15000, 'vpv3' in keys and 'vpv4' in keys),
+                      ('l2-l3-values', not has(tag, 'single_phase'), 'vgrid2' in keys and 'vgrid3' in keys)]
+            for what, expected, present in checks:
+                if expected != present:
+                    rep.add(f'model-class/{what}/ET', 'supported blocks are all present, per documented model class',
+                            dict(part='model-class', tag=tag, power=power),
+                            dict(cause=f'serial tag {tag}, rated {power} W: {what} {"expected" if expected else "not expected"} by the pinned model '
+                                       f'classes, {"present" if present else "absent"} in the result'))
+    return n
+
+
 def all_cases(tier, seed):
     cases = []
     for c in et_configs(tier, seed):
@@ -321,6 +364,7 @@ def run(tier, seed, rep):
     from .. import api_sessions
     _api = api_sessions.explore(tier, seed, {'C15'})
     rep.add_many([v for v in _api['violations'] if v['prop'] == 'C15'])
+    nmc = model_class_stage(rep)
     cases = all_cases(tier, seed)
     k = 64
     chunks = [cases[i::k] for i in range(k)]
@@ -370,7 +414,7 @@ def run(tier, seed, rep):
     for v, cnt in best.values():
         v['n'] = cnt
         rep.add_many([v])
-    cov = dict(api_session_histories=_api['histories'], api_session_states=_api['states'],
+    cov = dict(model_class_polls=nmc, api_session_histories=_api['histories'], api_session_states=_api['states'],
                states=len(states), transitions=total * 4, executions=total, traces_validated_against_impl=total,
                configurations=total, dynamic_histories=ndyn, distinct_outcome_classes=len(ocs),
                outcome_classes={str(k): v for k, v in sorted(ocs.items(), key=str)[:30]}, exhaustive=True,
@@ -391,6 +435,11 @@ def replay(r):
         out = api_sessions.replay(r)
         out['violations'] = [m for m in out['violations'] if m[0] == 'C15']
         return out
+    if r.get('part') == 'model-class':
+        from ..findings import Report
+        rp = Report('C15')
+        model_class_stage(rp)
+        return dict(violations=sorted(rp.by_key))
     cfg = r['cfg']
     cfg['refused'] = tuple(cfg['refused'])
     if 'changes' in r:
